@@ -72,7 +72,9 @@ func main() {
 	candidates := func(h *big.Int, other *big.Int) []*big.Int {
 		r := gen.BN254
 		return []*big.Int{h, new(big.Int).Add(h, r), new(big.Int).Add(h, new(big.Int).Lsh(r, 1)), new(big.Int).Mod(h, r),
-			new(big.Int).Add(h, big.NewInt(1)), new(big.Int).Sub(h, big.NewInt(1)), other, g.Below(new(big.Int).Lsh(big.NewInt(1), 256)), big.NewInt(0)}
+			new(big.Int).Add(h, big.NewInt(1)), new(big.Int).Sub(h, big.NewInt(1)), other, g.Below(new(big.Int).Lsh(big.NewInt(1), 256)), big.NewInt(0),
+			// signed candidates: the negation is a different residue, a negative representative of the same residue is not
+			new(big.Int).Neg(h), new(big.Int).Neg(new(big.Int).Mod(h, r)), new(big.Int).Sub(h, new(big.Int).Mul(r, big.NewInt(6))), new(big.Int).Sub(new(big.Int).Mod(h, r), r)}
 	}
 	for c := 0; c < *n; c++ {
 		for _, s := range []*sys{ins, del} {
